@@ -27,6 +27,9 @@ def register(PROPS):
                         '{none, COUNT 1,2,63,64,65,130, UNTIL on/before the 4th and the 100th occurrence}, 10000 pops or year 2099',
         },
         'drivers': [
+            D('c03_tworules', ['mode=rules'], label='two-sources-rules', shards=4),
+            D('c03_tworules', ['mode=rdates'], label='two-sources-rdates', shards=4),
+            D('c03_tworules', ['mode=rules'], label='two-sources-rules-asan', shards=4, variant='asan'),
             D('c16_streams', ['maxparts=1', 'intervals=1,2', 'anchors=8', 'terms=quick', 'pops=3000', '--case-timeout', '20'],
               ['maxparts=2', 'intervals=1,2,7', 'anchors=12', 'terms=full', 'pops=10000', 'pairs=1', '--case-timeout', '20', '--deadline', '540'],
               label='streams'),
